@@ -52,3 +52,11 @@ func VerifHarness_C09_PNG_Chunks() {
 	VerifUseMetadata(md)
 	verifReach("returned")
 }
+
+// VerifHarness_C09_NegControl: deliberately too small budget (1 KiB: below bufio's own
+// buffer); must be reported as violated.
+func VerifHarness_C09_NegControl() {
+	in, _ := VerifBuildPNG(0)
+	verifSetBudget(1024, 0)
+	_, _, _ = Load(rd.New(in))
+}
